@@ -19,6 +19,8 @@ import (
 type Engine struct {
 	prog      *ssa.Program
 	entAlloc  []string
+	bindings    map[string]map[string]string // recorded types of the locals named by loop invariants (rename tolerance)
+	recBindings map[string]map[string]string // being recorded on this run (--record-bindings)
 	spkgs     map[string]*ssa.Package
 	tpkgs     map[string]*packages.Package
 	fset      *token.FileSet
@@ -758,6 +760,8 @@ func (st *State) loopEnv(fr *Frame, li *loopInfo) *Env {
 			}
 		}
 	}
+	env.fnKey = fnKey(fr.fn)
+	env.locals = map[string]bool{}
 	// locals that live in a heap cell (address-taken or captured): always read through the cell
 	for name, al := range st.e.cellVars(fr.fn) {
 		if _, taken := env.vars[name]; taken {
@@ -765,6 +769,7 @@ func (st *State) loopEnv(fr *Frame, li *loopInfo) *Env {
 		}
 		if v, ok := fr.vals[al]; ok {
 			env.cells[name] = st.ptrAddr(v, al.Type().Underlying().(*types.Pointer).Elem())
+			env.locals[name] = true
 		}
 	}
 	// source-level locals in scope (lowest priority)
@@ -778,9 +783,11 @@ func (st *State) loopEnv(fr *Frame, li *loopInfo) *Env {
 		if d.isAddr {
 			if pt, ok := d.t.Underlying().(*types.Pointer); ok {
 				env.cells[name] = st.ptrAddr(d.v, pt.Elem())
+				env.locals[name] = true
 			}
 		} else {
 			env.vars[name] = envVar{d.v, d.t}
+			env.locals[name] = true
 		}
 	}
 	// locals every non-constant reference of which denotes one and the same SSA value (single assignment, e.g.
@@ -794,6 +801,7 @@ func (st *State) loopEnv(fr *Frame, li *loopInfo) *Env {
 		}
 		if sv, ok := fr.vals[v]; ok {
 			env.vars[name] = envVar{sv, v.Type()}
+			env.locals[name] = true
 		}
 	}
 	// phis of every open loop of this function are visible as name<ordinal> (idx3, dest2, ...)
